@@ -198,13 +198,23 @@ func runC03P(t *testing.T, sc c03pScenario) verdict {
 	}
 	out := c03pOutcome{}
 	inconclusive := false
+	lateTerm := false
 	if alive {
 		select {
 		case <-exited:
-		case <-time.After(25 * time.Second):
-			inconclusive = true
-			_ = cmd.Process.Kill()
-			<-exited
+		case <-time.After(8 * time.Second):
+			// none of the scheduled signals took effect (they all arrived before fan2go had installed
+			// its handler and were dropped or coalesced): the daemon is regulating by now, end the run
+			// with one more SIGTERM - that one it must obey
+			lateTerm = true
+			_ = cmd.Process.Signal(syscall.SIGTERM)
+			select {
+			case <-exited:
+			case <-time.After(25 * time.Second):
+				inconclusive = true
+				_ = cmd.Process.Kill()
+				<-exited
+			}
 		}
 	}
 	out.WallMs = time.Since(t0).Milliseconds()
@@ -223,7 +233,7 @@ func runC03P(t *testing.T, sc c03pScenario) verdict {
 	}
 	var vs []sim.Violation
 	if inconclusive {
-		return verdict{vs: []sim.Violation{{Key: "harness-timeout", Msg: "daemon did not exit within 25 s after the signals"}}, outcome: out}
+		return verdict{vs: []sim.Violation{{Key: "daemon-does-not-stop", Msg: fmt.Sprintf("signals %+v had no effect for 8 s; a further SIGTERM while regulating did not end the daemon within 25 s", sc.Signals)}}, outcome: out}
 	}
 	touchedAny, killedEarly := false, false
 	for i, f := range sc.Fans {
@@ -274,6 +284,9 @@ func runC03P(t *testing.T, sc c03pScenario) verdict {
 	}
 	if sc.BurstN > 0 {
 		labels = append(labels, "signal-burst")
+	}
+	if lateTerm {
+		labels = append(labels, "scheduled-signals-had-no-effect")
 	}
 	nt := touchedAny && (len(sc.Signals) > 1 || sc.BurstN > 0 || hasOrigMode(sc, 1, 5, 0))
 	return verdict{vs: vs, nontrivial: nt, labels: labels, outcome: out}
